@@ -66,7 +66,7 @@ type GossipMsg struct {
 }
 
 func NewWorld(r *rec.Recorder) *World {
-	w := &World{R: r, Clock: vpipe.NewClock(), Epoch: time.Now(), Nodes: map[int]*Node{}, Conns: map[int]*Client{},
+	w := &World{R: r.Child(), Clock: vpipe.NewClock(), Epoch: time.Now(), Nodes: map[int]*Node{}, Conns: map[int]*Client{},
 		Topics: map[string][]string{}, cnt: map[string]int{}, cntCh: make(chan struct{}, 1)}
 	wasp.VerifHook = w.hook
 	return w
@@ -293,6 +293,7 @@ func (n *Node) Stop() {
 }
 
 func (w *World) Close() {
+	w.R.Off()
 	for _, n := range w.Nodes {
 		n.Stop()
 	}
@@ -486,6 +487,7 @@ type Client struct {
 	AutoAck     string
 	sent        int // packets written after CONNECT
 	established bool
+	hostile     bool
 	ended       bool
 	OnPkt       func(p mq.Packet)
 	hold        chan struct{}
@@ -612,9 +614,15 @@ func (cl *Client) Send(ev rec.Ev, raw []byte) error {
 		}
 		return ev
 	})
-	cl.mu.Lock()
-	cl.sent++
-	cl.mu.Unlock()
+	if ev["kind"] == "RAW" {
+		cl.mu.Lock()
+		cl.hostile = true
+		cl.mu.Unlock()
+	} else { // raw bytes may be half a packet or several: they are not counted as one packet to process
+		cl.mu.Lock()
+		cl.sent++
+		cl.mu.Unlock()
+	}
 	return err
 }
 
@@ -744,6 +752,7 @@ func (cl *Client) SendConnect(ev rec.Ev, raw []byte) error {
 	})
 	return err
 }
+func (cl *Client) Hostile() bool { cl.mu.Lock(); defer cl.mu.Unlock(); return cl.hostile }
 func (cl *Client) Sent() int {
 	cl.mu.Lock()
 	defer cl.mu.Unlock()
